@@ -20,6 +20,10 @@ struct Prog {
     end: u8,
     isr: usize,
     enable_bit: bool,
+    /// 0 = fresh machine; 1 / 2 = the machine first ran a program that set the key-edge enable bit
+    /// and IE for 90 edges (with one interrupt taken), then got a cpu reset / master reset, and only
+    /// then this program's RAM image (a "second life": nothing of the first may leak into it)
+    pre: u8,
 }
 
 fn bodies() -> Vec<(&'static str, Vec<u8>)> {
@@ -118,6 +122,7 @@ fn build(body: &[(&'static str, Vec<u8>)], isr: usize, enable_bit: bool, ei: boo
         end,
         isr,
         enable_bit,
+        pre: 0,
     }
 }
 
@@ -190,7 +195,25 @@ pub fn images_for_phase_sweep() -> Vec<(String, [u8; 240])> {
 
 fn machine(p: &Prog) -> Machine {
     let case = Case { cpu: Cpu { r: [0, 0, 0], pc: 0, fr: 0, sp: 0 }, scratch: (0, 0), ram: p.ram, inputs: [0; 4], di1: 0 };
-    case.machine()
+    if p.pre == 0 {
+        return case.machine();
+    }
+    // first life: the counter program with the enable bit and IE set, one key press taken
+    let first = build(&[bodies()[0].clone()], 1, true, true, 0);
+    let mut m = Case { cpu: case.cpu, scratch: (0, 0), ram: first.ram, inputs: [0; 4], di1: 0 }.machine();
+    for e in 0..90 {
+        if e == 60 {
+            m.trigger_key_interrupt();
+        }
+        m.raw_mut().trigger_clock_edge();
+    }
+    if p.pre == 1 {
+        m.cpu_reset();
+    } else {
+        m.master_reset();
+    }
+    m.raw_mut().bus_mut().memory_mut().copy_from_slice(&p.ram);
+    m
 }
 
 #[derive(Clone, PartialEq, Eq, Hash, Debug)]
@@ -455,6 +478,19 @@ fn family(quick: bool) -> Vec<Prog> {
         v.push(build(&body, 1, false, true, 1));
         v.push(build(&body, 1, false, true, 2));
         v.push(build(&body, 1, true, false, 1));
+    }
+    // second lives: the enable-bit-clear and the ordinary programs on a machine that was reset after a
+    // first program had enabled (and taken) the key interrupt
+    for s in seqs.iter().filter(|s| s.len() == 1).step_by(if quick { 3 } else { 1 }) {
+        let body: Vec<(&'static str, Vec<u8>)> = s.iter().map(|&i| b[i].clone()).collect();
+        for pre in [1u8, 2] {
+            for (isr, enable, ei, init) in [(1usize, false, true, 1usize), (1, false, true, 2), (1, true, true, 0), (2, true, false, 3)] {
+                let mut p = build(&body, isr, enable, ei, init);
+                p.pre = pre;
+                p.name = format!("{} after-{}", p.name, if pre == 1 { "cpu-reset" } else { "master-reset" });
+                v.push(p);
+            }
+        }
     }
     v
 }
